@@ -285,7 +285,7 @@ var StructTypes = []reflect.Type{
 	T(CN1{}), T(CN2{}), T(NMapHolder{}),
 	T(ManyF{}), T(ManyL{}),
 	T(Node{}), T(FNode{}), T(Ping{}), T(Pong{}), T(ENode{}), T(DeepNil{}),
-	T(MapAndLists{}), T(Wrap{}), T(WrapList{}), T(PtrTime{}), T(Named{}), T(SelfAny{}), T(SelfAnyList{}), T(PtrConts{}), T(MutA{}), T(MutB{}), T(MpKeyStruct{}), T(MutGraph{}),
+	T(MapAndLists{}), T(Wrap{}), T(WrapList{}), T(PtrTime{}), T(Named{}), T(SelfAny{}), T(SelfAnyList{}), T(PtrConts{}), T(MutA{}), T(MutB{}), T(MpKeyStruct{}), T(MutGraph{}), T(NonASCII{}),
 }
 
 // TypeByName finds a zoo struct type.
@@ -436,7 +436,7 @@ type F9 struct {
 	I []interface{}
 }
 
-var FTypes = []reflect.Type{reflect.TypeOf(F3{}), reflect.TypeOf(F4{}), reflect.TypeOf(F5{}), reflect.TypeOf(F9{})}
+var FTypes = []reflect.Type{reflect.TypeOf(F3{}), reflect.TypeOf(F4{}), reflect.TypeOf(F5{}), reflect.TypeOf(F9{}), reflect.TypeOf(NonASCII{})}
 
 // ---- types added for specific mechanisms
 
@@ -551,4 +551,12 @@ type MpKeyStruct struct {
 type MutGraph struct {
 	As []*MutA
 	Bs []*MutB
+}
+
+// NonASCII: field and class names outside ASCII (string lengths count characters, not octets).
+type NonASCII struct {
+	Größe  int32
+	Naïve  string
+	Zażółć []string
+	Name日本 *Inner
 }
